@@ -36,6 +36,8 @@ ACCEPTED_RAISE = {
 }
 
 ACCEPTED_NULL = {
+    'filters.others.StripWhitespaceFilter._stripws_parenthesis:arithmetic':
+        'PAREN-HAS-CLOSE: the handler is dispatched for Parenthesis groups only, a Parenthesis is built by _group_matching from a matched "(" ... ")" pair (C09 R9.1) and no later pass can absorb its delimiters (R9.5/R9.6), so the lookup of M_CLOSE among its own children succeeds',
     'engine.grouping._group:stored unchecked in a container':
         'a matched group starts with its opening token, which is neither whitespace nor a comment, so the backward lookup from the end always finds a token; the tuple is only used for identity membership tests',
     'engine.grouping.group_comments:argument `end` of sql.TokenList.group_tokens (dereferenced there without a guard)':
@@ -440,6 +442,8 @@ ACCEPTED_BOUNDS = {
     ('filters.others.StripWhitespaceFilter._stripws_parenthesis', 'tlist.tokens[1]'): 'PAREN>=2: index 1 is at most the closing ")"',
     ('filters.others.StripWhitespaceFilter._stripws_parenthesis', 'tlist.tokens[-2]'): 'PAREN>=2: index -2 is at least the opening "("',
     ('filters.others.StripWhitespaceFilter._stripws_parenthesis', 'tlist.tokens[-2].tokens[-1]'): 'NONEMPTY-GROUP (R3.5): a group has at least one child',
+    ('filters.others.StripWhitespaceFilter._stripws_parenthesis', 'tlist.tokens[cidx - 1].tokens[-1]'): 'NONEMPTY-GROUP (R3.5): a group has at least one child',
+    ('filters.others.StripWhitespaceFilter._stripws_parenthesis', 'tlist.tokens[cidx - 1]'): 'PAREN>=2: cidx is the index of the closing ")", which follows the opening "(" at index 0',
     ('filters.aligned_indent.AlignedIndentFilter._process_identifierlist', 'identifiers.pop(0)'): 'IDLIST>=2: an IdentifierList is built from `x , y` (R3.5), get_identifiers yields at least two items',
     ('filters.reindent.ReindentFilter._process_identifierlist', 'identifiers[0]'): 'IDLIST>=2',
     ('filters.reindent.ReindentFilter._process_identifierlist', 'identifiers.pop(0)'): 'IDLIST>=2',
